@@ -106,20 +106,20 @@ def schedules(R: Run):
 
     # ---- in-process variant: every interleaving of two threads at the finest granularity
     exhaustive("local", ["w1", "w2"], None, None, "fine")
-    exhaustive("local", ["w1", "f"], None, None if not R.quick else NOGC, "fine" if not R.quick else "nogc")
-    exhaustive("local", ["w1", "w2", "f"], None, NOGC, "nogc", gate=True)  # two writes, then the finalise
+    exhaustive("local", ["w1", "f"], None, None, "fine")  # a write racing with a finalise
+    exhaustive("local", ["w1", "w2", "f"], None, NOGC, "nogc-gated", gate=True)  # two writes, then the finalise
     exhaustive("local", ["w3", "w1", "w2"], None, C2 if R.quick else CW, "coarse")
     exhaustive("local", ["w1", "w2", "f"], None, C2 if R.quick else CW, "coarse")  # racing finalise
     # ---- cluster variant
     for workers in ([0, 1], [0, 0]):
         exhaustive("dist", ["w1", "w2"], workers, CW if R.quick else NOGC, "coarse" if R.quick else "nogc")
-        exhaustive("dist", ["w1", "w2", "f"], workers + [1], S.COARSE, "coarse-gated", gate=True)
-    exhaustive("dist", ["w1", "w2", "f"], [0, 1, 2], S.COARSE, "coarse-gated", gate=True)
+    for workers in ([0, 1, 1], [0, 0, 1], [0, 1, 2], [0, 0, 0]):
+        exhaustive("dist", ["w1", "w2", "f"], workers, S.COARSE if R.quick else CW, "coarse-gated", gate=True)
     # a finalise racing with a first write: correspondence only (see META.note)
-    exhaustive("dist", ["w1", "f"], [0, 1], S.COARSE, "coarse-racing-fin", oracle=False)
-    exhaustive("dist", ["w1", "f"], [0, 0], S.COARSE, "coarse-racing-fin", oracle=False)
+    exhaustive("dist", ["w1", "f"], [0, 1], S.COARSE if R.quick else CW, "racing-fin", oracle=False)
+    exhaustive("dist", ["w1", "f"], [0, 0], S.COARSE if R.quick else CW, "racing-fin", oracle=False)
     if not R.quick:
-        for workers in ([0, 1, 1], [0, 0, 0], [0, 1, 2], [1, 0, 0]):
+        for workers in ([0, 1, 1], [0, 0, 0], [0, 1, 2]):
             exhaustive("dist", ["w1", "w2", "w3"], workers, C2, "coarse3")
     # ---- random fine-grained schedules of three / four threads, with stutter steps
     n = R.pick(400, 6000)
@@ -367,8 +367,10 @@ def replay(R: Run, rec) -> int:
         print("real :", obs["text"])
         try:
             R.proof_stage()
-            print("model:", run_driver("C18", [sched_line(case["variant"], case["kinds"], case["workers"],
-                                                          case["schedule"])])[0])
+            line = sched_line(case["variant"], case["kinds"], case["workers"], case["schedule"])
+            print("model (repaired code):", run_driver("C18", [line])[0])
+            if case["variant"] == "local":
+                print("model (code as found):", run_driver("C18", [line.replace("local T", "local F", 1)])[0])
         except Exception as e:  # pylint: disable=broad-except
             print("model: unavailable:", e)
         probe = Run(R.prop, R.tier, R.seed)
